@@ -65,6 +65,11 @@ Gw_C17 == {GwAck("PUBACK", "any", 7), Gw("PUBREC", "any"), Gw("PUBCOMP", "any"),
            GwAck("REGACK", "pend", 8), Gw("UNSUBACK", "pend"),
            GwPub(2, 0, 7, <<>>, "any"), Gw("PUBREL", "any"), Gw("DISCONNECT", "none")}
 
+(* C17x: client exchanges and gateway-initiated QoS 2 exchanges with coinciding message IDs, with the
+   acknowledgements of both (small alphabet: every schedule is executed) *)
+Apis_C17x == {ApiT("Publish", AB, 1, ""), ApiT("Publish", AB, 2, "")}
+Gw_C17x == {GwPub(2, 0, 7, <<>>, "any"), Gw("PUBREL", "any"), GwAck("PUBACK", "pend", 7), Gw("PUBREC", "pend"), Gw("PUBCOMP", "pend")}
+
 ---- (* C27: subscribe / unsubscribe histories and deliveries *)
 Apis_C27 == {ApiT("Subscribe", <<"a", "+">>, 0, "h1"), ApiT("Subscribe", AB, 1, "h2"), ApiT("Subscribe", <<"#">>, 2, "h3"),
              ApiT("Unsubscribe", <<"a", "+">>, 0, ""), ApiT("Unsubscribe", AB, 0, ""),
@@ -88,6 +93,11 @@ Gw_C28 == {Gw("CONNACK", "none"), GwRc("CONNACK", "none", 3), Gw("DISCONNECT", "
 Apis_C33 == {Api("Connect"), SleepApi(10), Api("Disconnect"), Api("Close"),
              [ApiT("Publish", <<"xy">>, 1, "") EXCEPT !.short = TRUE, !.stid = 30841]}
 Gw_C33 == {Gw("CONNACK", "none"), Gw("DISCONNECT", "none"), Gw("PINGRESP", "none"), GwAck("PUBACK", "pend", 30841)}
+
+(* C33w: keep-alive across a whole sleep cycle: ping in flight, sleep, wake-up, reconnect, keep-alive again
+   (small alphabet, long histories: every schedule is executed) *)
+Apis_C33w == {SleepApi(10), Api("Connect")}
+Gw_C33w == {Gw("CONNACK", "none"), Gw("DISCONNECT", "none"), Gw("PINGRESP", "none")}
 
 ---- (* C16 client half: gateway REGISTER retransmitted / repeated, followed by publishes *)
 Apis_C16 == {ApiT("Publish", AB, 1, ""), ApiT("Subscribe", <<"#">>, 0, "h1")}
